@@ -113,6 +113,12 @@ func scenarios() []*scenario {
 			},
 			Rs: stdRs, Ws: stdWs, DepthQuick: 4, DepthThorough: 5, ExpectCollisions: true,
 		},
+		{ // three-way label overlap under the default hash ("x"+"111" == "x1"+"11" == "x11"+"1") on a ring whose
+			// replica cap (120) is large enough for it: collision buckets with three members, removal from the middle
+			Name: "prefix3", RingReplicas: 120,
+			Nodes: []nodeSpec{{"x", "x", "x"}, {"x1", "x1", "x1"}, {"x11", "x11", "x11"}, {"b", "b", "b"}},
+			Rs:    []int{1, 100, 120}, Ws: []int{0, 50, 100}, DepthQuick: 4, DepthThorough: 5, ExpectCollisions: true,
+		},
 		{ // deliberately colliding custom hash (outside the quantifier): Add/Remove only
 			Name: "custom", Custom: true, AddRemoveOnly: true,
 			Hash:  func(b []byte) uint64 { return hash.Hash(b) % 97 },
